@@ -426,6 +426,49 @@ Section Model.
   Definition run (fixed sf : bool) (hs hint : list path) (rq : request) (d : disk) (f : fault) : result * st :=
     update fixed sf hs hint rq (init_state d f).
 
+  (* ---- the name check as a parameter ------------------------------------
+     [escapes] is the check of the gateway: filepath.Rel semantics, a name is
+     accepted iff its cleaned join lies strictly below the directory, element
+     by element (NameCheck.v: [rel_check_iff_strictly_inside]).  A weaker
+     check overlooks some of the names that leave the directory; the one that
+     compares the joined path with the directory as STRINGS (strings.HasPrefix)
+     overlooks exactly the siblings whose name starts with the directory's
+     name (cfg/flows-disabled next to cfg/flows; NameCheck.v:
+     [prefix_check_accepts_a_sibling]).  [lax p] = the check in force does not
+     see that the outside path [p] has left the directory.  [update_by esc] /
+     [run_by esc] are [update] / [run] with the verdict [esc] of the name check
+     in place of [escapes] ([update_by escapes = update] by computation). *)
+  Definition seen_by (lax : path -> bool) (e : entry) : bool :=
+    escapes e && negb (lax (e_target e)).
+
+  Definition items_of_by (esc : entry -> bool) (f : field) (pl : list entry) : list item :=
+    map (fun e => (target e, e_content e, esc e)) (filter (fun e => field_eqb (e_field e) f) pl).
+
+  Definition plan_by (esc : entry -> bool) (fixed : bool) (hint : list path) (pl : list entry) : list item :=
+    flat_map (fun f => order_field fixed hint (items_of_by esc f pl)) fields.
+
+  Definition update_by (esc : entry -> bool) (fixed sf : bool) (hs hint : list path) (rq : request) (s : st) : result * st :=
+    if negb (r_method_ok rq) then (Failed, s) else
+    if negb (r_body_ok rq) then (Failed, s) else
+    let '(f0, s0) := prim false s in
+    if f0 then (Failed, s0) else
+    let bk := snapshot (dsk s0) in
+    if negb (forallb e_decodable (r_payload rq)) then (Failed, s0) else
+    let '(okc, s1) := match r_handler rq with
+                      | HApplyFlows => clean_all hs s0
+                      | HConfiguration => (true, s0)
+                      end in
+    if okc then
+      let '(oks, s2) := save_all fixed (plan_by esc fixed (skipn (hk s1) hs) (r_payload rq)) s1 in
+      if oks then
+        let '(okr, s3) := reload s2 in
+        if okr then (Ok, s3) else rollback sf hint bk true s3
+      else rollback sf hint bk false s2
+    else rollback sf hint bk false s1.
+
+  Definition run_by (esc : entry -> bool) (fixed sf : bool) (hs hint : list path) (rq : request) (d : disk) (f : fault) : result * st :=
+    update_by esc fixed sf hs hint rq (init_state d f).
+
   (* every engine a transaction can have met, the final one included *)
   Definition arrivals (s : st) : list engine := eng s :: seen s.
 
@@ -502,6 +545,7 @@ Arguments arrivals {B}.
 Arguments targets_covered {B}.
 Arguments escapes {B}.
 Arguments names_escape {B}.
+Arguments seen_by {B}.
 Arguments base {B}.
 Arguments is_dir {B}.
 Arguments file_above {B}.
